@@ -186,6 +186,14 @@ def c02_scope(tier):
     P.append(("merge-signals", 'Signal x = ("signal-A", 6);\nSignal y = ("signal-B", 4);\nBundle r = { x, y };\nBundle q = r + 1;\n'))
     P.append(("chain", B1 + "Bundle t = b * 2;\nBundle r = (t > 8) : t;\nSignal q = any(r) > 30;\n"))
     P.append(("two-bundles", B1 + 'Bundle c = { ("signal-A", 1), ("signal-C", 7) };\nBundle r = b * 2;\nBundle q = c * 3;\n'))
+    T = 'Signal t = ("signal-T", 1);\n'
+    P.append(("gate-nested", B1 + S + T + "Bundle g = (t > 0) : ((s > 2) : b);\n"))
+    P.append(("gate-nested-named", B1 + S + T + "Bundle inner = (s > 2) : b;\nBundle g = (t > 0) : inner;\n"))
+    P.append(("gate-of-each", B1 + S + "Bundle d = b * 2;\nBundle g = (s > 2) : d;\n"))
+    P.append(("gate-of-filter", B1 + S + "Bundle f = (b > 4) : b;\nBundle g = (s > 2) : f;\n"))
+    P.append(("select-projected", B1 + 'Bundle c = b * 2;\nSignal z = c["iron-plate"] | "signal-Z";\nBundle d = c + 1;\n'))
+    P.append(("select-projected-filter", B1 + 'Bundle c = (b > 4) : b;\nSignal z = c["signal-A"] | "signal-Z";\nBundle d = c + 1;\n'))
+    P.append(("select-then-arith", B1 + 'Bundle c = b + 7;\nSignal z = c["signal-B"] * 3;\nSignal w = c["signal-A"] - c["signal-B"];\n'))
     P.append(("zero-members", 'Bundle b = { ("signal-A", 0), ("signal-B", 5) };\nBundle r = b + 10;\nSignal q = all(b) > 3;\nSignal p = any(b) < 1;\n'))
     return P
 
@@ -241,6 +249,10 @@ def c09_scope(tier):
         f'Entity l{k} = place("small-lamp", {k * 12}, {k % 2 * 9});\nl{k}.enable = x > {k};\n' for k in range(5))))
     P.append(("far", 'Signal x = ("signal-A", 6);\nEntity a = place("small-lamp", 0, 0);\na.enable = x > 1;\n'
               'Entity b = place("small-lamp", 60, 0);\nb.enable = x > 2;\n'))
+    P.append(("neg-iterator", 'Signal s = ("signal-A", 1);\nfor i in 0..4 {\n  Entity l = place("small-lamp", -i, -6);\n  l.enable = s > i;\n}\n'))
+    P.append(("neg-var", 'Signal s = ("signal-A", 1);\nint k = 0;\nint j = 3;\nEntity a = place("small-lamp", -k, -(j * 2));\na.enable = s > 0;\nEntity b = place("small-lamp", -(k + 0), 4);\nb.enable = s > 1;\n'))
+    P.append(("user-poles", 'Signal s = ("signal-A", 1);\nEntity l = place("small-lamp", 0, 0);\nl.enable = s > 0;\nEntity p1 = place("small-electric-pole", 15, 4);\n'
+              'Entity p2 = place("big-electric-pole", 25, 9);\nEntity p3 = place("medium-electric-pole", 3, 3);\n'))
     P.append(("props", 'Entity a = place("small-lamp", 0, 0, {use_colors: 1});\nEntity b = place("inserter", 2, 0, {direction: 4});\n'))
     if tier != "quick":
         P.append(("grid40", "for i in 0..8 {\n  for j in 0..5 {\n    Entity l = place(\"small-lamp\", i * 2, j * 2);\n  }\n}\n"))
@@ -297,8 +309,14 @@ def c12_scope(tier):
     Q3 = ['Signal v = ("iron-plate", 9);', 'Entity lv = place("small-lamp", 4, 0);', "lv.enable = v < 5;"]
     P4 = ['Bundle bp = { ("signal-A", 1), ("signal-B", 2) };', "Bundle rp = bp * 3;"]
     Q4 = ['Bundle bq = { ("signal-A", 10), ("signal-C", 20) };', "Bundle rq = (bq > 5) : bq;"]
+    P5 = ['Signal fa = ("signal-A", 11);', 'Entity f1 = place("small-lamp", 0, 0);', "f1.enable = fa > 10;",
+          'Entity f2 = place("small-lamp", 40, 0);', "f2.enable = fa > 12;"]
+    Q5 = ['Signal ga = ("signal-A", 4);', 'Entity g1 = place("small-lamp", 0, 1);', "g1.enable = ga > 10;",
+          'Entity g2 = place("small-lamp", 40, 1);', "g2.enable = ga > 3;"]
+    P6 = ['Signal pa = ("signal-A", 10);', 'Signal pr = (pa + ("signal-B", 5)) | "signal-C";']
+    Q6 = ['Signal qa = ("signal-A", 3);', 'Signal qr = (qa + ("signal-B", 5)) | "signal-D";']
     out = []
-    for tag, (A, Bq) in {"arith": (P1, Q1), "chains": (P2, Q2), "lamps": (P3, Q3), "bundles": (P4, Q4)}.items():
+    for tag, (A, Bq) in {"far-apart": (P5, Q5), "same-literal": (P6, Q6), "arith": (P1, Q1), "chains": (P2, Q2), "lamps": (P3, Q3), "bundles": (P4, Q4)}.items():
         inter = list(_interleavings(A, Bq))
         if tier == "quick":
             inter = inter[:: max(1, len(inter) // 4)]
